@@ -15,6 +15,8 @@ pub trait TF: Send + Sync {
     /// the slice entry points of the cipher traits (encrypt_blocks / decrypt_blocks) on `data` = n blocks
     fn enc_blocks(key: &[u8], tw: [u64; 2], data: &[u8]) -> Vec<u8>;
     fn dec_blocks(key: &[u8], tw: [u64; 2], data: &[u8]) -> Vec<u8>;
+    /// NewBlockCipher::new / new_from_slice (tweak 0) and a clone of the cipher object
+    fn enc_new(key: &[u8], block: &[u8]) -> Vec<u8>;
 }
 macro_rules! tf {
     ($k:ident, $ty:ty, $n:expr, $name:expr) => {
@@ -38,13 +40,37 @@ macro_rules! tf {
                 let c = <$ty>::with_tweak(GenericArray::from_slice(key), tw[0], tw[1]);
                 let mut bs: Vec<_> = data.chunks($n).map(|b| GenericArray::clone_from_slice(b)).collect();
                 c.encrypt_blocks(&mut bs);
+                // the parallel-blocks entry point (ParBlocks = 1) must agree with it block by block
+                for (i, b) in data.chunks($n).enumerate() {
+                    let mut pb: cipher::generic_array::GenericArray<cipher::generic_array::GenericArray<u8, _>, cipher::generic_array::typenum::U1> = Default::default();
+                    pb[0] = GenericArray::clone_from_slice(b);
+                    c.encrypt_par_blocks(&mut pb);
+                    assert!(pb[0] == bs[i], "encrypt_par_blocks disagrees with encrypt_blocks");
+                }
                 bs.iter().flat_map(|b| b.to_vec()).collect()
             }
             fn dec_blocks(key: &[u8], tw: [u64; 2], data: &[u8]) -> Vec<u8> {
                 let c = <$ty>::with_tweak(GenericArray::from_slice(key), tw[0], tw[1]);
                 let mut bs: Vec<_> = data.chunks($n).map(|b| GenericArray::clone_from_slice(b)).collect();
                 c.decrypt_blocks(&mut bs);
+                for (i, b) in data.chunks($n).enumerate() {
+                    let mut pb: cipher::generic_array::GenericArray<cipher::generic_array::GenericArray<u8, _>, cipher::generic_array::typenum::U1> = Default::default();
+                    pb[0] = GenericArray::clone_from_slice(b);
+                    c.decrypt_par_blocks(&mut pb);
+                    assert!(pb[0] == bs[i], "decrypt_par_blocks disagrees with decrypt_blocks");
+                }
                 bs.iter().flat_map(|b| b.to_vec()).collect()
+            }
+            fn enc_new(key: &[u8], block: &[u8]) -> Vec<u8> {
+                use cipher::NewBlockCipher;
+                let c = <$ty as NewBlockCipher>::new(GenericArray::from_slice(key));
+                let c2 = <$ty as NewBlockCipher>::new_from_slice(key).unwrap();
+                let mut b = GenericArray::clone_from_slice(block);
+                c.encrypt_block(&mut b);
+                let mut b2 = GenericArray::clone_from_slice(block);
+                c2.clone().encrypt_block(&mut b2);
+                assert!(b == b2, "new and new_from_slice (and a clone) disagree");
+                b.to_vec()
             }
         }
     };
@@ -253,6 +279,17 @@ fn run_slices<T: TF>(rep: &mut Report, check: &str) {
         rep.nontrivial += 1;
         let want_e: Vec<u8> = data.chunks(n).flat_map(|b| vref::threefish::encrypt(&key, tw, b)).collect();
         let want_d: Vec<u8> = data.chunks(n).flat_map(|b| vref::threefish::decrypt(&key, tw, b)).collect();
+        if nb == 1 {
+            let want0 = vref::threefish::encrypt(&key, [0, 0], &data);
+            match guarded(|| T::enc_new(&key, &data)) {
+                Err(p) => rep.violation(&format!("{}:{}:new-api:panic:{}", check.to_lowercase(), T::NAME, panic_class(&p)), format!("NewBlockCipher::new / new_from_slice / clone: {}", p), json!({"cipher": T::NAME, "api": "new"})),
+                Ok(e) => {
+                    if e != want0 {
+                        rep.violation(&format!("{}:{}:new-api:encrypt-mismatch", check.to_lowercase(), T::NAME), "a cipher built with NewBlockCipher::new (tweak 0) differs from the model".into(), json!({"cipher": T::NAME, "api": "new"}));
+                    }
+                }
+            }
+        }
         let r = guarded(|| {
             let e = T::enc_blocks(&key, tw, &data);
             let d = T::dec_blocks(&key, tw, &data);
@@ -285,7 +322,7 @@ fn run_slices<T: TF>(rep: &mut Report, check: &str) {
 pub fn run(check: &str, tier: &str, config: &str) -> Report {
     let mut rep = Report::new(check, tier, config);
     let th = tier == "thorough";
-    rep.rule = "per block size: union of complete products K x {t0, (0,0)} x {b0,b1}, {0} x {(0,0), t0} x B, {0} x T x {0}, {k0,k1} x T x {b0,b1}, {k0,k1} x {t0,t1} x B with K = {0, 1^n, every one-hot key bit, each word all-ones, a key whose words XOR to C240 (parity word 0)}, T = {(0,0), (max,max), every one-hot of the 128 tweak bits, (x,x) (third tweak word 0), ...}, B = {0, 1^n, every one-hot block bit, each word all-ones}; thorough adds one-cold keys/blocks/tweaks, 64 patterned values and sparse cross products; oracle vref::threefish (round loop, subkeys on the fly, spec permutation); C10 checks dec(enc(x)) = x, enc(dec(x)) = x and dec against the model; both checks also drive the slice entry points encrypt_blocks / decrypt_blocks on 0..=5 blocks; distinct_nontrivial = distinct expected ciphertexts".into();
+    rep.rule = "per block size: union of complete products K x {t0, (0,0)} x {b0,b1}, {0} x {(0,0), t0} x B, {0} x T x {0}, {k0,k1} x T x {b0,b1}, {k0,k1} x {t0,t1} x B with K = {0, 1^n, every one-hot key bit, each word all-ones, a key whose words XOR to C240 (parity word 0)}, T = {(0,0), (max,max), every one-hot of the 128 tweak bits, (x,x) (third tweak word 0), ...}, B = {0, 1^n, every one-hot block bit, each word all-ones}; thorough adds one-cold keys/blocks/tweaks, 64 patterned values and sparse cross products; oracle vref::threefish (round loop, subkeys on the fly, spec permutation); C10 checks dec(enc(x)) = x, enc(dec(x)) = x and dec against the model; both checks also drive the slice entry points encrypt_blocks / decrypt_blocks on 0..=5 blocks, the par-blocks entry points, NewBlockCipher::new / new_from_slice and a clone of the cipher object; distinct_nontrivial = distinct expected ciphertexts".into();
     run_one::<T256>(&mut rep, check, th);
     run_one::<T512>(&mut rep, check, th);
     run_one::<T1024>(&mut rep, check, th);
